@@ -194,3 +194,49 @@ Fixpoint vrun (d : vdict) (ops : list vop) : list (vout * vdict) :=
   end.
 
 Definition vfinal (d : vdict) (ops : list vop) : vdict := fold_left (fun d o => fst (vstep d o)) ops d.
+
+(* ---- results kept by the caller, and caller-side edits ----
+   A TmCheckResult handed out by add_tm is a fresh object per call: its `completed` flag is its
+   own, its `status` is a REFERENCE to the dictionary's VerificationStatus object of that
+   telecommand.  No later call touches the result object; later reports for the same telecommand
+   mutate the status object it refers to for as long as that object is the dictionary's entry;
+   remove_entry / remove_completed_entries detach the object (a later add_tc of the same request id
+   creates a new one), after which it keeps the state it had.
+   A kept result is (key, still the dictionary's object?, status as read now, completed). *)
+Record kept := { k_key : Z; k_live : bool; k_status : vstatus; k_completed : bool }.
+
+Definition refresh (d : vdict) (r : kept) : kept :=
+  if k_live r then
+    match lookup (k_key r) d with
+    | Some s => {| k_key := k_key r; k_live := true; k_status := s; k_completed := k_completed r |}
+    | None => {| k_key := k_key r; k_live := false; k_status := k_status r; k_completed := k_completed r |}
+    end
+  else r.
+
+(* a history step as the caller sees it: a tracker call, or the caller editing (setters of the
+   telecommand / its space packet header) a telecommand object it had registered earlier or had
+   built a report from.  The tracker keeps its own copy of the request id
+   (RequestId.from_sp_header copies the packet id and the sequence control), so the edit is not a
+   tracker operation at all. *)
+Inductive hop := HOp (o : vop) | HCallerEdit.
+
+Definition hstep (d : vdict) (o : hop) : vdict * vout :=
+  match o with HOp o => vstep d o | HCallerEdit => (d, ONone) end.
+
+Definition keep (o : hop) (x : vout) (ks : list kept) : list kept :=
+  match o, x with
+  | HOp (AddTm r), OResult s c =>
+    ks ++ [{| k_key := reqid_as_u32 (rep_id r); k_live := true; k_status := s; k_completed := c |}]
+  | _, _ => ks
+  end.
+
+(* observations after every step, the dictionary at the end, and every result handed out, as it
+   reads at the end of the history *)
+Fixpoint hrun (d : vdict) (ks : list kept) (ops : list hop) : list (vout * vdict) * vdict * list kept :=
+  match ops with
+  | [] => ([], d, ks)
+  | o :: r =>
+    let '(d', x) := hstep d o in
+    let '(obs, df, kf) := hrun d' (keep o x (map (refresh d') ks)) r in
+    ((x, d') :: obs, df, kf)
+  end.
